@@ -277,15 +277,27 @@ def _run1(fn, start, env, stop_pred, P, call_value, max_steps, exit_blocks, fork
                         # evaluate the callee on the shared abstract heap: heap cells ("@"...), memory cells ("m", addr) and "#..." bookkeeping keys are
                         # passed in and taken back; `&local` arguments travel through numbered out-cells
                         g = P.fns[callee_name(e)]
-                        env2 = dict((k_, v_) for k_, v_ in env.items() if (isinstance(k_, tuple) and k_ and k_[0] in ("@", "m")) or (isinstance(k_, str) and k_.startswith("#")) or k_ == "event_debug_logging_mask_")
+                        env2 = dict((k_, v_) for k_, v_ in env.items() if (isinstance(k_, tuple) and k_ and (k_[0] in ("@", "m") or (isinstance(k_[0], str) and k_[0].startswith("#arr")))) or (isinstance(k_, str) and k_.startswith("#")) or k_ == "event_debug_logging_mask_")
                         env2.pop("#trace", None)
                         depth = env.get("#depth", 0) + 1
                         env2["#depth"] = depth
                         if depth > 12:
                             return Outcome("unknown", el, env, trace, "call depth")
                         outs_ = {}
+                        arrs_ = {}
                         for i_, ((pn, pt), a) in enumerate(zip(g.params, e[2])):
                             sa = strip(normx(a))
+                            if is_e(sa, "var") and "[" in (fn.var_type(sa[1]) or "") and "*" in pt.replace("[", "*"):
+                                # a local array handed down: its elements travel through cells (cellbase, index)
+                                cellbase = "#arr%d.%d" % (depth, i_)
+                                pre = ("idx", key(sa))
+                                for k_, v_ in env.items():
+                                    if isinstance(k_, tuple) and len(k_) == 3 and k_[0] == "idx" and k_[1] == key(sa) and isinstance(k_[2], tuple) and k_[2][:1] == ("int",):
+                                        env2[(cellbase, k_[2][1])] = v_
+                                env2[pn] = PRef(None, cellbase)
+                                env2["#arrays"] = 1
+                                arrs_[cellbase] = sa
+                                continue
                             if is_e(sa, "addr") and is_e(strip(sa[1]), "var"):
                                 cellname = "#out%d.%d" % (depth, i_)
                                 env2[cellname] = env.get(strip(sa[1])[1])
@@ -311,9 +323,12 @@ def _run1(fn, start, env, stop_pred, P, call_value, max_steps, exit_blocks, fork
                                     rv_ = tevalx(conc(normx(so.at.e[1])), so.env, P, g) if so.env.get("#typed") else evalx(conc(normx(so.at.e[1])), so.env, P)
                                 except EvalError:
                                     rv_ = None
-                            upd_ = dict((k_, v_) for k_, v_ in so.env.items() if (isinstance(k_, tuple) and k_ and k_[0] in ("@", "m")) or (isinstance(k_, str) and k_.startswith("#") and k_ not in outs_ and k_ not in ("#depth", "#trace", "#typed")))
+                            upd_ = dict((k_, v_) for k_, v_ in so.env.items() if (isinstance(k_, tuple) and k_ and (k_[0] in ("@", "m") or (isinstance(k_[0], str) and k_[0].startswith("#arr") and k_[0] not in arrs_))) or (isinstance(k_, str) and k_.startswith("#") and k_ not in outs_ and k_ not in ("#depth", "#trace", "#typed")))
                             for cellname, vn in outs_.items():
                                 upd_[vn] = so.env.get(cellname)
+                            for k_, v_ in so.env.items():
+                                if isinstance(k_, tuple) and len(k_) == 2 and k_[0] in arrs_:
+                                    upd_[nkey(["idx", arrs_[k_[0]], ["int", k_[1]]])] = v_
                             if (rv_, upd_) not in alts_:
                                 alts_.append((rv_, upd_))
                         if not alts_:
